@@ -6,12 +6,13 @@
   in binary64 the comparison of recovered values is exact in the code and fails for generic values
   of a parameter repeated in different affine forms (open finding C17-inconsistent-generic-values).
 
-  Partial: that every isomorphism networkx may return equals the label isomorphism (uniqueness) is
-  not proved here; it is checked by the correspondence run on reordered instances.
+  Uniqueness of the isomorphism (so that networkx's search order cannot matter) is proved in
+  `Lemmas/IsoUnique.lean` / `Lemmas/IsoMatch.lean` and restated below.
 -/
 import Blackbird.Match
 import Blackbird.Props.C03
 import Blackbird.Lemmas.ToyScalar
+import Blackbird.Lemmas.IsoMatch
 
 namespace Blackbird
 
@@ -157,5 +158,34 @@ example : (solveAffine (Num.int 3 : Num ℚ) (.int 1) (.int 7)).toK = some 2 :=
 
 example : affine (K := ZS) "a" (.add (.mul (.num (.int 3)) (.par "a")) (.num (.int 1))) = some (.int 3, .int 1) := by
   decide
+
+
+/-! ### the isomorphism is unique -/
+
+/-- **Uniqueness of the isomorphism.** Between the dependency graphs of two programs in which every
+operation acts on at least one mode, every label-preserving, edge-preserving bijection sends, for
+each (gate, modes) label, the k-th operation with that label to the k-th operation with that label:
+there is at most one isomorphism, so which one a graph matcher finds cannot matter. -/
+theorem C17_isomorphism_unique {L : Type} [DecidableEq L] (ws1 ws2 : List (List Int)) (n : Nat)
+    (hn1 : ws1.length = n) (lab1 lab2 : Nat → L)
+    (hs1 : ∀ i j, i < j → j < n → lab1 i = lab1 j → ∃ q, q ∈ ws1.getD i [] ∧ q ∈ ws1.getD j [])
+    (f g : Nat → Nat) (hf : ∀ i, i < n → f i < n) (hg : ∀ j, j < n → g j < n)
+    (hgf : ∀ i, i < n → g (f i) = i) (hfg : ∀ j, j < n → f (g j) = j)
+    (hlab : ∀ i, i < n → lab2 (f i) = lab1 i)
+    (hedge : ∀ i j, (i, j) ∈ graphEdges ws1 → (f i, f j) ∈ graphEdges ws2) (ℓ : L) :
+    (labelClass lab1 n ℓ).map f = labelClass lab2 n ℓ :=
+  label_iso_unique ws1 ws2 n hn1 lab1 lab2 hs1 f g hf hg hgf hfg hlab hedge ℓ
+
+/-- **The matcher's choice is irrelevant**: any isomorphism between the graphs of a template and a
+program is the canonical one `matchTemplate` (the model of `match_template`) uses. -/
+theorem C17_matcher_choice_irrelevant (t p : Program K) (ht : AllModes t) (hp : AllModes p)
+    (hlen : p.ops.length = t.ops.length) (f g : Nat → Nat)
+    (hf : ∀ i, i < t.ops.length → f i < t.ops.length) (hg : ∀ j, j < t.ops.length → g j < t.ops.length)
+    (hgf : ∀ i, i < t.ops.length → g (f i) = i) (hfg : ∀ j, j < t.ops.length → f (g j) = j)
+    (hlab : ∀ i, i < t.ops.length → labOf p (f i) = labOf t i)
+    (hedge : ∀ i j, (i, j) ∈ (toDiGraph t).1.edges → (f i, f j) ∈ (toDiGraph p).1.edges)
+    (can : List (Nat × Nat)) (hcan : labelIso (toDiGraph t).1 (toDiGraph p).1 = some can) :
+    ∀ pr ∈ can, f pr.1 = pr.2 :=
+  iso_eq_labelIso t p ht hp hlen f g hf hg hgf hfg hlab hedge can hcan
 
 end Blackbird
